@@ -225,6 +225,35 @@ def RErr.toEvent : RErr → Event
 def finish (e : RErr) (st : RState) : RState :=
   { st with events := st.events ++ [e.toEvent], result := some e }
 
+/-- "message too big after decompression" (the reason `limitedReader` puts into its 1009 frame) -/
+def tooBigReason : Bytes :=
+  [109, 101, 115, 115, 97, 103, 101, 32, 116, 111, 111, 32, 98, 105, 103, 32, 97, 102, 116, 101,
+   114, 32, 100, 101, 99, 111, 109, 112, 114, 101, 115, 115, 105, 111, 110]
+
+/-- `messageReader.Read` calls for the payload of the current data frame (`c.br.Read` until the
+frame is exhausted or the stream ends, unmasking with the carried key position); `none` =
+`errUnexpectedEOF`. -/
+def readPayload (cfg : Cfg) (st : RState) : Option (Bytes × RState) :=
+  if st.input.length < st.readRemaining then none
+  else
+    let chunk := st.input.take st.readRemaining
+    some (if cfg.server then xorMask st.maskKey st.maskPos chunk else chunk,
+          { st with input := st.input.drop st.readRemaining, readRemaining := 0,
+                    maskPos := (st.maskPos + st.readRemaining) % 4 })
+
+/-- The final frame of a message was consumed (`io.EOF` from `messageReader`): the application
+gets the message, through flate and `limitedReader` when `NextReader` saw RSV1 on the first frame.
+`error` = the read loop ends with that state. -/
+def deliver (cfg : Cfg) (typ : Nat) (dec : Bool) (acc : Bytes) (st : RState) : Except RState RState :=
+  if dec then
+    match cfg.inflate (acc ++ deflateTail) with
+    | none => .error (finish .inflate st)
+    | some out =>
+      if cfg.inflatedLimit > 0 && out.length > cfg.inflatedLimit then
+        .error (finish .readLimit (writeControl st opClose (formatClose 1009 tooBigReason)).1)
+      else .ok { st with events := st.events ++ [.msg typ out] }
+  else .ok { st with events := st.events ++ [.msg typ acc] }
+
 /-- The application loop `for { ReadMessage(); stop on error }`, one frame per unit of fuel.
 
 `frag = none`: inside `NextReader`'s loop (no message started); `frag = some f`: inside
@@ -232,8 +261,8 @@ def finish (e : RErr) (st : RState) : RState :=
 (`f.compressed` is `c.readDecompress` as captured by `NextReader` after the first frame).
 Each iteration is one `advanceFrame` call (control frames are handled inside it) followed, for a
 data or continuation frame, by the `messageReader.Read` calls that consume its payload; when the
-final frame is consumed the message is delivered (through flate and `limitedReader` when it is
-compressed) and `NextReader` starts again (`readLength = 0`). -/
+final frame is consumed the message is delivered and `NextReader` starts again
+(`readLength = 0`). -/
 def run (cfg : Cfg) : Nat → Option Frag → RState → RState
   | 0, _, st => finish .fuel st
   | n + 1, frag, st =>
@@ -244,31 +273,17 @@ def run (cfg : Cfg) : Nat → Option Frag → RState → RState
       else if frag.isNone && !isDataOp ft then run cfg n none st'  -- NextReader skips it (unreachable)
       else if frag.isSome && isDataOp ft then finish .unexpectedData st'
       else
-        let typ := match frag with | some f => f.typ | none => ft
-        let dec := match frag with | some f => f.compressed | none => st'.readDecompress
-        let acc := match frag with | some f => f.acc | none => []
-        -- `c.br.Read` until the frame is exhausted or the stream ends
-        if st'.input.length < st'.readRemaining then finish .eof { st' with input := [] }
-        else
-          let chunk := st'.input.take st'.readRemaining
-          let chunk := if cfg.server then xorMask st'.maskKey st'.maskPos chunk else chunk
-          let acc := acc ++ chunk
-          let st' := { st' with input := st'.input.drop st'.readRemaining, readRemaining := 0,
-                                maskPos := (st'.maskPos + st'.readRemaining) % 4 }
-          if !st'.readFinal then run cfg n (some ⟨typ, dec, acc⟩) st'
+        let f : Frag := match frag with
+          | some f => f
+          | none => ⟨ft, st'.readDecompress, []⟩
+        match readPayload cfg st' with
+        | none => finish .eof { st' with input := [] }
+        | some (chunk, st2) =>
+          if !st2.readFinal then run cfg n (some ⟨f.typ, f.compressed, f.acc ++ chunk⟩) st2
           else
-            -- message complete: io.EOF from messageReader; flate/limitedReader saw the whole message
-            let st' := { st' with readLength := 0 }
-            if dec then
-              match cfg.inflate (acc ++ deflateTail) with
-              | none => finish .inflate st'
-              | some out =>
-                if cfg.inflatedLimit > 0 && out.length > cfg.inflatedLimit then
-                  finish .readLimit
-                    (writeControl st' opClose
-                      (formatClose 1009 "message too big after decompression".toUTF8.toList)).1
-                else run cfg n none { st' with events := st'.events ++ [.msg typ out] }
-            else run cfg n none { st' with events := st'.events ++ [.msg typ acc] }
+            match deliver cfg f.typ f.compressed (f.acc ++ chunk) { st2 with readLength := 0 } with
+            | .error r => r
+            | .ok st3 => run cfg n none st3
 
 def fuelFor (input : Bytes) : Nat := input.length + 1
 
